@@ -319,3 +319,32 @@ func Cands(c Case) []Case {
 func (c *Case) SortTypes() {
 	sort.SliceStable(c.Types, func(i, j int) bool { return c.Types[i].Name < c.Types[j].Name })
 }
+
+// FixKinds restores JV kinds after JSON decoding (Kind is not serialised).
+func FixKinds(d *gen.JV) {
+	if d == nil {
+		return
+	}
+	switch {
+	case d.Lit == "" && d.Arr != nil:
+		d.Kind = gen.KArr
+	case d.Lit == "":
+		d.Kind = gen.KObj
+	case strings.HasPrefix(d.Lit, `"`):
+		d.Kind = gen.KStr
+	case d.Lit == "true" || d.Lit == "false":
+		d.Kind = gen.KBool
+	case d.Lit == "null":
+		d.Kind = gen.KNull
+	case strings.ContainsAny(d.Lit, ".eE"):
+		d.Kind = gen.KFloat
+	default:
+		d.Kind = gen.KInt
+	}
+	for _, m := range d.Mem {
+		FixKinds(m.Val)
+	}
+	for _, a := range d.Arr {
+		FixKinds(a)
+	}
+}
